@@ -154,7 +154,7 @@ func (e *Engine) BindContracts() []string {
 				// a generic function: the contract applies to every instantiation
 				found := false
 				for f := range e.AllFuncs {
-					if o := f.Origin(); o != nil && f != o && o.Pkg != nil && o.Pkg.Pkg.Path() == fc.Pkg && relName(o) == fc.Key {
+					if o := f.Origin(); o != nil && f != o && o.Pkg != nil && o.Pkg.Pkg.Path() == fc.Pkg && (relName(o) == fc.Key || stripTypeArgs(relName(o)) == fc.Key) {
 						e.Contracts[f] = fc
 						found = true
 					}
@@ -292,4 +292,32 @@ func (e *Engine) LoopInfo(key string) []string {
 		out = append(out, fmt.Sprintf("loop %d: block %d (%s) at %s phis=%v blocks=%d", li.ord, li.head.Index, li.head.Comment, pos, phis, len(li.blocks)))
 	}
 	return out
+}
+
+// stripTypeArgs: "(Set[T]).AddAll" -> "(Set).AddAll"
+func stripTypeArgs(s string) string {
+	var b strings.Builder
+	d := 0
+	for _, c := range s {
+		switch {
+		case c == '[':
+			d++
+		case c == ']':
+			d--
+		case d == 0:
+			b.WriteRune(c)
+		}
+	}
+	return b.String()
+}
+
+// IsGenericShell: an uninstantiated generic function or a method shell over type parameters; only its
+// instantiations run, and only they are verified.
+func IsGenericShell(fn *ssa.Function) bool {
+	for _, t := range fn.TypeArgs() {
+		if _, ok := t.(*types.TypeParam); ok {
+			return true
+		}
+	}
+	return fn.TypeParams().Len() > 0 && len(fn.TypeArgs()) == 0
 }
